@@ -131,6 +131,7 @@ impl<T: PartialOrd> FromSpecImpl<RangeToInclusive<T>> for Interval<T> {
 //@|     (Interval::LowerOneSided(h), Interval::LowerOneSided(h2)) => cloned(h, h2),
 //@|     _ => false },
 //@endimpl
+//@include prelude/interval_int_projections.rs
 // vacuity guard: must FAIL (the runner checks that it does)
 proof fn canary_must_fail<T: PartialOrd>() requires total_order::<T>(), unbounded::<T>() ensures false {}
 } // mod code
